@@ -72,6 +72,23 @@ def err_variants(t):
     return out
 
 
+def only_gates(t, allowed):
+    """conditions on the successful paths of an async body other than the allowed tests and the outcomes of awaited calls /
+    fallible constructors (discr of a call): each is a gate that can turn a request away"""
+    out = []
+    for c, l in loops.paths(t):
+        if not (l[0] == "adt" and l[2] == "Ok"):
+            continue
+        for k in c:
+            if k[0] in allowed:
+                continue
+            if len(k) == 3 and k[0][0] == "discr" and k[0][1][0] in ("await", "call") and not any(k[0][1] == a[1] for a in allowed):
+                if k[0][1][0] == "await" or k[0][1][1].endswith("::new"):
+                    continue
+            out.append("%s is %s" % (show(canon_calls(k[0]))[:100], k[1:] if len(k) == 3 else k[1]))
+    return sorted(set(out))
+
+
 def templates(chk, wit):
     evw = sym.Evaluator(wit)
     ref = evw.eval_fn(W + "key_templates", [P("a"), P("b"), P("c"), P("n")])
@@ -98,6 +115,9 @@ def realtime_download(chk, prog, T3):
                                                        ("date_time", fld(fld(res, "metadata"), "last_modified")))), ("vfld", ch, "Ok", "0"))))
         oks = leaves_ok(t)
         expect_c(chk, "R-WIRE", DC, oks[0][1] if len(oks) == 1 else ("oks", len(oks)), want, w, "returns the identifier asked for stamped with the object's Last-Modified, and the chunk built from the downloaded bytes", key="payload")
+        gates = only_gates(t, [])
+        chk.ob("R-ORDER", DC, not gates, "the chunk is requested and returned for every identifier" if not gates else
+               "the download is additionally conditional on: %s" % "; ".join(gates)[:300], w, key="no-extra-gate")
 
 
 def run(chk, tier):
@@ -158,6 +178,10 @@ def run(chk, tier):
         okk = len(oks) == 1 and canon_calls(oks[0][1][3][0][1]) == canon_calls(adt("nexrad_data::volume::file::File", "File", (("0", fld(("vfld", ("await", req), "Ok", "0"), "data")),)))
         chk.ob("R-WIRE", DF, okk, "returns the downloaded bytes unchanged as the volume file", w, key="payload")
         chk.ob("R-ERR", DF, {"DateTimeError", "InvalidSiteIdentifier"} <= err_variants(t), "an unparsable name is a DateTimeError / InvalidSiteIdentifier error", w, key="name-errors")
+        # every identifier with a readable date and site is requested: nothing else stands between the name and the GET
+        gates = only_gates(t, [("discr", call(AID + "::date_time", ident)), ("discr", call(AID + "::site", ident))])
+        chk.ob("R-ORDER", DF, not gates, "the object is requested for every name with a readable date-time and site" if not gates else
+               "the request is additionally conditional on: %s" % "; ".join(gates)[:300], w, key="no-extra-gate")
     # ---- real-time listing
     t, f, ev = safe_body(chk, prog, LC, [LO])
     if t is not None:
